@@ -231,6 +231,10 @@ def _conventional(rep):
                 alts.append(z3.And(rows_ok, pred, first))
             st.prove("non-periodic-vector-last-others-kept", z3.Or(alts))
             st.prove("atoms-wrapped-and-centred-before", z3.BoolVal("wrap" in muts and "translate" in muts))
+            # the fold back into the cell after the shift must include the non-periodic direction (the shift is along it)
+            pw = getattr(ideal, "pbc_at_wrap", None)
+            st.prove("wrapped-along-all-three-directions-after-the-shift", z3.BoolVal(pw is not None and all(x is True or (not isinstance(x, SB) and bool(x)) for x in pw)
+                                                                                  and "translate" in muts and "wrap" in muts and muts.index("translate") < len(muts) - 1 - muts[::-1].index("wrap") + 1))
             # centring (so that the sheet is not split by the cell boundary when the cell is minimised): one shift that puts the periodic
             # centre of mass at the cell centre along the detected non-periodic direction - whichever row of the standardised cell that is
             trs = getattr(ideal, "translations", [])
